@@ -36,6 +36,17 @@ pub fn mark_job_as_done(sh: &mut shell::Shell, gid: i32, pid: i32, reason: &str)
             println_stderr!("");
             print_job(&job);
         }
+        return;
+    }
+
+    // the job lives on: if all remaining members are stopped it is a
+    // stopped job now.
+    let mut all_stopped = false;
+    if let Some(job) = sh.get_job_by_gid(gid) {
+        all_stopped = job.all_members_stopped() && job.status != "Stopped";
+    }
+    if all_stopped {
+        mark_job_as_stopped(sh, gid, false);
     }
 }
 
